@@ -6,6 +6,7 @@ import (
 	"errors"
 	"fmt"
 	"os"
+	"runtime"
 	"strings"
 	"sync"
 	"sync/atomic"
@@ -37,6 +38,19 @@ func drain[T any](it *fun.Iterator[T]) {
 		_ = it.Value()
 	}
 	_ = it.Close()
+}
+
+// closeDuringFirstRead closes a fresh iterator while another goroutine is
+// in (or entering) its first ReadOne - the usual way of stopping a consumer
+// that is blocked on an empty container.
+func closeDuringFirstRead[T any](it *fun.Iterator[T]) {
+	c, cf := sctx()
+	defer cf()
+	done := make(chan struct{})
+	go func() { defer close(done); _, _ = it.ReadOne(c) }()
+	runtime.Gosched()
+	_ = it.Close()
+	<-done
 }
 
 func consume[T any](it *fun.Iterator[T]) {
@@ -81,6 +95,7 @@ func distributorOps(prefix string, d pubsub.Distributor[int]) []op {
 		{prefix + ".Producer", func(g, i int) { c, cf := sctx(); defer cf(); _, _ = d.Producer()(c) }},
 		{prefix + ".Iterator.ReadOne(shared)", func(g, i int) { c, cf := sctx(); defer cf(); _, _ = dit.ReadOne(c) }},
 		{prefix + ".Iterator.Next(own)", func(g, i int) { drain(d.Iterator()) }},
+		{prefix + ".Iterator.Close(during first ReadOne)", func(g, i int) { closeDuringFirstRead(d.Iterator()) }},
 		{prefix + ".InputFilter.Send", func(g, i int) { c, cf := sctx(); defer cf(); _ = in.Send(c, val(g, i)) }},
 		{prefix + ".OutputFilter.Receive", func(g, i int) { c, cf := sctx(); defer cf(); _, _ = outf.Receive(c) }},
 	}
@@ -102,6 +117,7 @@ func queueSubject(name string, mkq func() *pubsub.Queue[int]) subject {
 			{"Len", func(g, i int) { _ = q.Len() }},
 			{"Iterator.ReadOne(shared)", func(g, i int) { c, cf := sctx(); defer cf(); _, _ = it.ReadOne(c) }},
 			{"Iterator.Next(own)", func(g, i int) { drain(q.Iterator()) }},
+			{"Iterator.Close(during first ReadOne)", func(g, i int) { closeDuringFirstRead(q.Iterator()) }},
 			{"Producer(shared)", func(g, i int) { c, cf := sctx(); defer cf(); _, _ = prod(c) }},
 			{"Producer(own)", func(g, i int) { c, cf := sctx(); defer cf(); p := q.Producer(); _, _ = p(c); _, _ = p(c) }},
 			{"Close", func(g, i int) {
@@ -139,6 +155,7 @@ func dequeSubject(name string, mkd func() *pubsub.Deque[int]) subject {
 			{"IteratorReverse.ReadOne(shared)", func(g, i int) { c, cf := sctx(); defer cf(); _, _ = rit.ReadOne(c) }},
 			{"Iterator.Next(own)", func(g, i int) { drain(q.Iterator()) }},
 			{"IteratorReverse.Next(own)", func(g, i int) { drain(q.IteratorReverse()) }},
+			{"ProducerBlocking.Iterator.Close(during first ReadOne)", func(g, i int) { closeDuringFirstRead(q.ProducerBlocking().Iterator()) }},
 			{"Producer(shared)", func(g, i int) { c, cf := sctx(); defer cf(); _, _ = p(c) }},
 			{"ProducerReverse(shared)", func(g, i int) { c, cf := sctx(); defer cf(); _, _ = pr(c) }},
 			{"ProducerBlocking(shared)", func(g, i int) { c, cf := sctx(); defer cf(); _, _ = pb(c) }},
